@@ -207,6 +207,9 @@ func (d *DBI) Next() (kv KV, err error) {
 	if err != nil {
 		return kv, err
 	}
+	if size < 0 {
+		return kv, fmt.Errorf("invalid size")
+	}
 	offset += n
 	if len(d.data)-offset < size {
 		return kv, fmt.Errorf("remaining data to short for indicated size")
@@ -252,6 +255,9 @@ func (d *DBI) indexData() error {
 			size := int(v)
 			if err != nil {
 				return err
+			}
+			if size < 0 {
+				return fmt.Errorf("invalid size")
 			}
 			offset += n
 
